@@ -24,7 +24,10 @@ def run(ctx):
     ctx.judge("errchain", ec, res)
     fc = os.path.join(ctx.out, "framed.ndjson")
     ctx.tlc("errio", "Gen_FramedIo", "Gen_FramedIo.%s.cfg" % t, cases_to=fc)
-    res = ctx.replay("framed", fc, timeout=3000)
+    # a thorough framed case replays a 150 kB stream at every cut offset: the second pass takes a sample only
+    # a thorough framed case replays a 150 kB stream at every cut offset (the stage takes about 50 minutes, allocation
+    # bound: parallel shards were slower in total): the second pass takes a small sample only
+    res = ctx.replay("framed", fc, timeout=6000, again=(4000 if t == "quick" else 20))
     ctx.judge("framed", fc, res)
     def info(r):
         return r.get("info") if isinstance(r.get("info"), dict) else {}
